@@ -13,6 +13,7 @@ import (
 	"net/http/httptest"
 	"net/url"
 	"os"
+	"strconv"
 	"strings"
 	"sync"
 	"time"
@@ -237,6 +238,22 @@ func execDist(s distScen, tag string, seed int64) ([]any, error) {
 		}
 		if moved {
 			rw.WriteHeader(200)
+			return
+		}
+		if strings.HasSuffix(ans, "then200") {
+			// transient: the first PUT for this log gets the status in front, any later one 200
+			first := true
+			for _, e := range events {
+				if de, ok := e.(distEvent); ok && de.E == "dist.put" && de.Log == li && de.K != k {
+					first = false
+				}
+			}
+			if first {
+				code, _ := strconv.Atoi(ans[:3])
+				http.Error(rw, "try again", code)
+			} else {
+				rw.WriteHeader(200)
+			}
 			return
 		}
 		switch ans {
